@@ -115,7 +115,7 @@ class Run:
         env = dict(os.environ)
         # a small young generation keeps TLC's allocation churn in memory that is already mapped: page faults
         # are very expensive in this sandbox (measured: -Xmn1g 19 s, default 25 s, -Xmn4g 37 s on the same run)
-        env["JAVA_TOOL_OPTIONS"] = "-Xss512m " + ("-Xmn1g" if workers > 1 else "-Xmn512m")
+        env["JAVA_TOOL_OPTIONS"] = "-Xss512m " + ("-Xmn1g" if workers > 1 else "-Xmn512m -XX:ParallelGCThreads=2")
         cmd = ["timeout", "-s", "KILL", str(timeout)] + cmd
         t = time.time()
         p = subprocess.run(cmd, cwd=d, env=env, stdout=subprocess.PIPE, stderr=subprocess.STDOUT, text=True)
@@ -196,7 +196,7 @@ class Run:
             os.remove(resfile)
         cfg = ("SPECIFICATION Spec\nCONSTANTS\n  ResFile = \"res.ndjson\"\n  VerdictFile = \"verdicts.ndjson\"\n"
                "  Prop = \"%s\"\n  Shards = 1\nINVARIANT Report\nCHECK_DEADLOCK FALSE\n" % prop)
-        env = dict(os.environ, JAVA_TOOL_OPTIONS="-Xss512m -Xmn512m -Xmx%dg" % max(3, min(12, 40 // k)))
+        env = dict(os.environ, JAVA_TOOL_OPTIONS="-Xss512m -Xmn512m -XX:ParallelGCThreads=2 -Xmx%dg" % max(3, min(12, 40 // k)))   # 2 GC threads: up to 12 JVMs share 16 cores
         procs = []
         t = time.time()
         for pd in parts:
